@@ -21,6 +21,17 @@ def has_sym(a):
     return False
 
 
+def _resolve_tokens(obj):
+    """numpy's own string -> float64 conversion, for strings that are number tokens of the in-memory .g2o files"""
+    if isinstance(obj, str):
+        from . import tokens
+
+        return tokens.sym_float(obj)
+    if isinstance(obj, (list, tuple)) and any(isinstance(x, (str, list, tuple)) for x in obj):
+        return [_resolve_tokens(x) for x in obj]
+    return obj
+
+
 class _Linalg:
     def __getattr__(self, n):
         return getattr(numpy.linalg, n)
@@ -55,6 +66,8 @@ class NpProxy:
     def array(obj, dtype=None, **kw):
         if dtype is not None and dtype is not numpy.float64 and dtype is not float and dtype is not object:
             return numpy.array(obj, dtype=dtype, **kw)
+        if dtype in (numpy.float64, float):
+            obj = _resolve_tokens(obj)
         a = numpy.array(obj, dtype=object, **kw)
         if has_sym(a):
             return a
@@ -68,6 +81,8 @@ class NpProxy:
             return numpy.asarray(obj)
         if dtype is not None and dtype is not numpy.float64 and dtype is not float and dtype is not object:
             return numpy.asarray(obj, dtype=dtype, **kw)
+        if dtype in (numpy.float64, float):
+            obj = _resolve_tokens(obj)
         a = numpy.asarray(obj, dtype=object)
         if has_sym(a):
             return a
